@@ -1024,6 +1024,11 @@ pub fn is_multicaller_scenario(prop: &str, idx: u64) -> bool {
     prop == "C04" && idx % 8 == 3 && std::env::var("VERIF_SPEC").is_err()
 }
 
+/// C04 only: scenario indices that run the class-group sieve on a pool.
+pub fn is_classgroup_threads_scenario(prop: &str, idx: u64) -> bool {
+    prop == "C04" && idx % 16 == 6 && std::env::var("VERIF_SPEC").is_err()
+}
+
 /// C05 only: scenario indices that abort `classgroup::classgroup` instead of `factor`.
 pub fn is_classgroup_abort_scenario(prop: &str, idx: u64) -> bool {
     prop == "C05" && idx % 8 == 5
@@ -1044,7 +1049,7 @@ impl Family for FactorFamily {
              simulated threads were runnable or a fault fired; distinct = distinct rolling hash of (chosen thread, pending operation kind) over all steps.",
             tier.name(),
             match prop {
-                "C04" => "[one scenario in eight (index = 3 mod 8) is of another kind: 2-3 concurrent caller threads run factor() on ONE shared &Preferences, each call with its own pool, a share of the callers on >128-bit inputs with a P-1-smooth factor; references = sequential single-threaded executions of the same calls with the P-1 latch unset and set; 12 (quick) / 32 (thorough) schedules each] ",
+                "C04" => "[one scenario in eight (index = 3 mod 8) is of another kind: 2-3 concurrent caller threads run factor() on ONE shared &Preferences, each call with its own pool, a share of the callers on >128-bit inputs with a P-1-smooth factor; references = sequential single-threaded executions of the same calls with the P-1 latch unset and set; 12 (quick) / 32 (thorough) schedules each; one scenario in sixteen (index = 6 mod 16) runs classgroup::classgroup with 2-16 workers on the C18 workload and judges termination and panics of the shared CRelationSet / the sieve driver only] ",
                 "C05" => "[one scenario in eight (index = 5 mod 8) aborts classgroup::classgroup instead: fundamental discriminants of 33-96 bits (112 thorough), every poll instant single-threaded, then 12 (quick) / 32 (thorough) runs abort@poll/time/region x 2-16 workers x schedule; judged once an evaluation of the predicate has answered true] ",
                 _ => "",
             },
@@ -1084,6 +1089,10 @@ impl Family for FactorFamily {
         if is_multicaller_scenario(prop, idx) {
             // C04: one scenario in eight runs several concurrent callers on one shared Preferences
             return crate::scen::multicaller::run_c04(tier, seed, idx);
+        }
+        if is_classgroup_threads_scenario(prop, idx) {
+            // C04 is anchored in classgroup.rs too: one scenario in sixteen runs the class-group sieve on a pool
+            return crate::scen::clsthreads::run_c04(tier, seed, idx);
         }
         let mut rep = Report::new(idx);
         let mut rng = Rng::new(derive(seed, prop, idx, "scenario"));
@@ -1420,6 +1429,9 @@ impl Family for FactorFamily {
         }
         if is_multicaller_scenario(prop, idx) {
             return crate::scen::multicaller::MultiCallerFamily.describe(prop, tier, seed, idx);
+        }
+        if is_classgroup_threads_scenario(prop, idx) {
+            return crate::scen::clsthreads::ClsThreadsFamily.describe(prop, tier, seed, idx);
         }
         let mut rng = Rng::new(derive(seed, prop, idx, "scenario"));
         gen_spec(&mut rng, prop, tier).to_json()
